@@ -67,6 +67,8 @@ def _prop_case(sel, r):
                 wave=["random", "bandlimited", "probe"][sel["wave"]], carrier=carrier, steps=steps,
                 in_place=bool(sel["in_place"]), order=1 + sel["order"], stack=[0, 2, 3][sel["stack"]],
                 wave_seed=int(r.integers(1 << 30)))
+    # the non-tilt (stack) axis in FRONT of the tilt axes, as a CTF ensemble applied after a tilt ensemble produces it
+    case["stack_first"] = bool(carrier != "metadata" and case["stack"] and r.random() < 0.5)
     if carrier != "metadata":
         nx, ny = int(r.integers(1, 4)), int(r.integers(2, 4))
         s = SIGNS[sel["sign"]]
@@ -186,6 +188,12 @@ def _run_propagate(case):
             members = [((k,), p) for k, p in enumerate(pairs)]
         tilted = tr.apply(fresh(meta))
         # (a scalar component given to BeamTilt2D is carried as base tilt metadata in the other direction)
+        if case.get("stack_first"):
+            nt_axes = len(tilted.ensemble_axes_metadata) - len(stack_axes)
+            t_axes = list(tilted.ensemble_axes_metadata)[:nt_axes]
+            moved = np.moveaxis(np.asarray(tilted.array), nt_axes, 0).copy()
+            tilted = abtem.Waves(moved, energy=energy, extent=extent, ensemble_axes_metadata=list(stack_axes) + t_axes,
+                                 metadata=dict(tilted.metadata))
     prop_t, prop_0 = FresnelPropagator(), FresnelPropagator()
     worst, wdet, nontriv, ok_all = 0.0, "", False, True
     acc = np.zeros(2)
@@ -197,6 +205,8 @@ def _run_propagate(case):
         untilted = prop_0.propagate(untilted, dz, in_place=case["in_place"], order=case["order"])
         u = np.asarray(untilted.array)
         t = np.asarray(tilted.array)
+        if case.get("stack_first") and t.ndim == u.ndim + (2 if carrier == "axes2d" else 1):
+            t = np.moveaxis(t, 0, t.ndim - u.ndim)  # back to (tilt axes..., stack, y, x) for the comparison below
         scale = float(np.abs(u).max())
         if carrier == "metadata":
             acc = acc + dz * np.tan(np.array([tx_, ty_]) * 1e-3)
